@@ -176,6 +176,25 @@ def run_names(report, n, rng):
         gmeta.append(dict(function="glyph.glyph_name", codepoints=list(cps), impl_out=nm, hashed=hashed))
         report.hist("glyph_name.kind", "hashed (too long)" if hashed else "spelled")
     evaluate_corr(report, IMPORTS, "Corr.C10", "glyph_name", "gname_case", gcases, gmeta, "gname_agree", "gname_agree", shard=200)
+    # the Gallina scanner for file stems against the regex, on stems that can match at their first character
+    fcases, fmeta = [], []
+    toks = ["emoji_u", "1f600", "200D", "fe0f", "-", "_", "x", ".", "g", "0", "E", "m", "00a9", "U", "1F3FB", "emoji_u"]
+    stems = set()
+    for cps in seqs[: n // 2]:
+        stems.add(Path(conventional_name(cps, rng.randrange(4), rng)).stem)
+    while len(stems) < n:
+        first = rng.choice(["emoji_u", "1f600", "0", "E", "fe0f", "-1f", "_200d", "emoji_u_", "emoji_ux", "e", "emoji_"])
+        stems.add(first + "".join(rng.choice(toks) for _ in range(rng.randint(0, 5))))
+    for st in sorted(stems):
+        try:
+            got = list(codepoints.from_filename(st))
+        except ValueError:
+            got = None
+        fcases.append("(" + tlit(st) + ", " + optlit(got, lambda g: listlit([f"{c}%N" for c in g])) + ")")
+        fmeta.append(dict(function="codepoints.from_filename", stem=st, impl_out=got))
+        report.count(("stem", st), True)
+    if (common.COQ / "Model" / "FileName.v").exists() and common.vo_ok("Model/FileName.v"):
+        evaluate_corr(report, IMPORTS, "Corr.C10", "from_filename", "fname_case", fcases, fmeta, "fname_agree", "fname_agree", shard=200)
     names = {}
     for cps in seqs:
         nm = glyph_name(cps)
